@@ -11,6 +11,7 @@ for n <= 5 (6 in the thorough tier), random subsets and permutations above; geom
 from dilute to percolating, periodic (triclinic) and not; scalar, per-pair dict and
 per-atom radius cutoffs; size filters int / tuple / None; default arrays None / constant
 / arbitrary negative / arbitrary non-negative.
+Cells are fully, partially (slab, wire) or not periodic.
 """
 from __future__ import annotations
 
